@@ -371,11 +371,24 @@ func Drive(cfg *Config, fn RunFn) int {
 			code = 1
 			break
 		}
+		// An oracle that compares a measured quantity (bytes allocated) with a threshold would be shrunk to the
+		// threshold itself, where a replay fails one time and passes the next: a shrunk tape is accepted only
+		// while it stays a quarter over the threshold (or as far over it as the original run was).
+		needRatio := 0.0
+		if x, ok := out.V.Params["over_threshold_ratio"]; ok {
+			needRatio = x
+			if needRatio > 1.25 {
+				needRatio = 1.25
+			}
+		}
 		min := Minimise(used, class, 150, 12*time.Second, func(c []uint32) *Violation {
 			wd := watchdog(fmt.Sprintf("a minimisation re-run of run %d of %s/%s seed %d", run, cfg.Prop, cfg.Scenario, cfg.Seed))
 			defer wd.Stop()
 			o := fn(ReplayTape(c), false)
 			if o.V != nil && known.Match(o.V) != nil {
+				return nil
+			}
+			if o.V != nil && needRatio > 0 && o.V.Params["over_threshold_ratio"] < needRatio {
 				return nil
 			}
 			return o.V
@@ -425,7 +438,21 @@ func Drive(cfg *Config, fn RunFn) int {
 		res.Known = append(res.Known, knownHits[id])
 	}
 	res.WallS = time.Since(t0).Seconds()
-	b, _ := json.Marshal(res)
+	b, err := json.Marshal(res)
+	if err != nil {
+		fmt.Println("INFRA: cannot encode the result:", err)
+		for _, smp := range res.Samples {
+			if _, e := json.Marshal(smp); e != nil {
+				fmt.Printf("  sample: %+v\n", smp)
+			}
+		}
+		for _, v := range res.Violations {
+			if _, e := json.Marshal(v); e != nil {
+				fmt.Printf("  violation: %+v\n", v.V)
+			}
+		}
+		return 2
+	}
 	if err := os.WriteFile(cfg.Out, b, 0o644); err != nil {
 		fmt.Println("INFRA: cannot write result:", err)
 		return 2
